@@ -113,6 +113,9 @@ func (e *env) violation(c *cell, o observation, key, what string, extra map[stri
 		// Histories across clients that share the servers' Disposer.
 		key = c.phase + ":" + key
 		what += " (response built from a pooled clone of a stored message; the servers dispose of written responses into the same Cloner)"
+	case phaseShutdown:
+		key = c.phase + ":" + key
+		what += " (the query was read before Shutdown and answered after the server had begun to shut down)"
 	case phaseSilent:
 		key = c.phase + ":" + key
 		what += " (the handler finished without writing, returning " + c.sh.NoWrite + "; the response is the server's own)"
